@@ -139,7 +139,9 @@ def check_escapes(cx, chk, g):
             cur = strip_casts(l[2])
             fs.pop()
         return digit_term(cur, fs[0][0], fs[0][1])
-    S = sem.Sem(cx, cg, max_leaves=4000)
+    # private helpers of the module that holds the conversions are looked into (a `hex_digit_value(c)` is still `c.to_digit(16).unwrap()`)
+    S = sem.Sem(cx, cg, max_leaves=4000, inline=lambda p_: p_ in cg.fns and "mir" in cg.fns[p_] and "{closure" not in p_ and "::string::" in p_
+                and cg.fns[p_].get("kind") == "Fn" and "<impl" not in p_)
     ps = [p for p in cg.fns if "HexaEscape> for char" in p and last(p) == "from" and "mir" in cg.fns[p]]
     if not ps:
         chk.anchor_missing("C12.hex", "From<&HexaEscape> for char")
